@@ -23,6 +23,10 @@ BRIDGES = {
     "mouette/operators/adjacency.py::adjacency_matrix": ["pair_writes_block", "pair_writes_get", "pair_writes_range_get", "adjacencyAux_get", "adjacency_matrix_modes"],
     "mouette/operators/adjacency.py::vertex_to_edge_operator": ["vertex_to_edge_fold", "vertex_to_edge_operator_bridge"],
     "mouette/operators/adjacency.py::vertex_to_face_operator": ["row_writes", "toFun_row", "vertex_to_face_fold", "vertex_to_face_operator_bridge"],
+    # whole bodies translated by C18's translator (vlib/gen/c18ltranslate.py -> Generated/C18Src.lean, re-run by this check too); bridged HERE to this
+    # property's model: scalar branch of `laplacian` = Ops.laplacian w faces (triplet by triplet), rows of Nabla of `laplacian_triangles` = Ops.nablaRow
+    "mouette/operators/laplacian_op.py::laplacian": ["laplacian_source_scalar_flat", "laplacian_source_scalar_aux", "laplacian_source_scalar"],
+    "mouette/operators/laplacian_op.py::laplacian_triangles": ["nablaRows_flat", "pairRow_real", "laplacian_triangles_source_rows"],
 }
 LEAN_MODULES = ["Mouette.Props.C08", "Mouette.Props.C08Source"]
 REQUIRED_THEOREMS = [
@@ -1068,6 +1072,12 @@ def translate():
         T.write_generated("C08Src", text)
     else:
         T.write_generated("C08Src", _stub("C08Src", [s for s in bsites if not s["ok"]]))
+    # `laplacian` / `laplacian_triangles`: bodies translated by C18's source translator into Generated/C18Src.lean (it writes a stub itself when a
+    # site raises); its laplacian_op sites are reported here, and any other failing site of that file as well (the shared file is then a stub)
+    from ..gen import c18stranslate as TRS
+    from ..gen import c18ltranslate as _TRL     # noqa: registers the laplacian_op sites in TRS.EXTRA_SITES
+    csites = TRS.run()
+    bsites += [c for c in csites if ("laplacian_op" in c["site"]) or not c["ok"]]
     return sites + bsites
 
 
@@ -1076,10 +1086,9 @@ _LAP = "mouette/operators/laplacian_op.py::"
 _CONN = "mouette/processing/connection.py::"
 SOURCE_MAP = {k: "translated" for k in BRIDGES}
 SOURCE_MAP.update({
-    _LAP + "laplacian": "modelled",              # the 4 writes per edge, the loop table and (cotan_edge_diagonal) the opposite index are translated tables with bridges; the assembly loop is hand-modelled
     _LAP + "cotan_edge_diagonal": "modelled",
     _LAP + "graph_laplacian": "modelled", _LAP + "graph_laplacian.add": "modelled",
-    _LAP + "laplacian_triangles": "modelled", _LAP + "laplacian_edges": "modelled",
+    _LAP + "laplacian_edges": "modelled",
     _LAP + "volume_laplacian": "modelled", _LAP + "laplacian_tetrahedra": "modelled",
     "mouette/operators/gradient_op.py::gradient": "modelled",
     _CONN + "SurfaceConnection.__init__": "oracle-only", _CONN + "SurfaceConnection._initialize": _OOS + "abstract method (body is `pass`)",
